@@ -18,6 +18,7 @@ RULE = ("set_rate histories of 1-60 edits (re-assignments, zeros, refused diagon
         "and starts shifted by multiples and non-multiples of the stride. distinct = (class, dim, rounded generator, axis, sub-axis); "
         "non-trivial iff the generator has at least one non-zero transfer rate and the populations move by more than 100x the bound.")
 RULE = RULE + " Round-6 workloads: generator classes include nearly symmetric matrices (sixth-digit differences) and symmetric exchange plus slow one-directional channels (< 1e-8/fs)."
+RULE = RULE + " Round-7 workloads: after all other calls the rate matrix held by the propagator is edited (set_rate / element assignment) and the propagation repeated."
 ASSUMPTIONS = ["rate matrices handed to the propagator have non-negative off-diagonals and zero column sums (the statement's quantifier)",
                "get_PropagationMatrix is called with corrections off; its time origin is the start of the propagator's own axis"]
 MIN_NONTRIVIAL = {"quick": 300, "thorough": 2000}
